@@ -1298,6 +1298,25 @@ FMT_PREAMBLE = ("data D { A, B(x: i64) }\ndata L[A] { N, Co(h: A, t: L[A]) }\nco
                 "codata Fn[A, B] { ap(x: A): B }\ndef f(x: i64): i64 { x }\ndef g(x: i64, y: i64): i64 { x }\n")
 
 
+def signature_family():
+    """declarations and signatures: every binding form (producer / covariable) x type nesting x name length x position
+    (definition parameter first / last, constructor field, destructor argument) and nested types as return types"""
+    decl = ("data D { K }\ndata L[A] { N, C(h: A, t: L[A]) }\ndata P[A, B] { T(a: A, b: B) }\ncodata F[A, B] { ap(x: A): B }\n")
+    types = ["i64", "D", "L[i64]", "L[L[i64]]", "L[F[i64, i64]]", "F[i64, L[i64]]", "P[L[i64], F[i64, D]]", "L[L[L[D]]]"]
+    out = []
+    for ti, ty in enumerate(types):
+        for name in ("k", "abc", "a_long_name1"):
+            for chi in ("prd", "cns"):
+                b = "%s :cns %s" % (name, ty) if chi == "cns" else "%s: %s" % (name, ty)
+                forms = {"def_first": "def g(%s, z: i64): i64 { z }\n" % b, "def_last": "def g(z: i64, %s): i64 { z }\n" % b,
+                         "def_only": "def g(%s): i64 { 0 }\n" % b,
+                         "ctor": "data X { Mk(%s, z: i64) }\n" % b, "dtor": "codata Y { d(%s, z: i64): i64, e: %s }\n" % (b, ty),
+                         "ret": "def g(z: i64, %s): %s { exit 0 }\n" % (b, ty)}
+                for fk, text in forms.items():
+                    out.append({"name": "sig_%d_%s_%s_%s" % (ti, name, chi, fk), "src": decl + text + "def main(): i64 { 0 }\n"})
+    return out
+
+
 def check_C16(tier):
     import re, time, collections, glob, subprocess, gen_fun
     t0 = time.time()
@@ -1320,6 +1339,7 @@ def check_C16(tier):
     # 2. generated programs and the repository's sources
     for nm, src, a in gen_fun.generate(seed() * 10 + 1, T(tier, 150, 3000), mode="any", pressure=True, budget=(8, 30), wide=True):
         sources.append({"name": "p_" + nm, "src": src})
+    sources += signature_family()
     for f in sorted(glob.glob(os.path.join(REPO, "examples", "*", "*.sc")) + glob.glob(os.path.join(REPO, "testsuite", "*", "*.sc")) +
                     glob.glob(os.path.join(REPO, "testsuite", "end_to_end", "*", "*.sc"))):
         sources.append({"name": "repo_" + os.path.basename(f)[:-3].replace("-", "_"), "src": open(f).read()})
